@@ -25,6 +25,7 @@ def check(run):
     defuse(run, p)
     rownum(run, p)
     nowrite(run, p)
+    extcase(run, p)
     from .c01 import datelang
     datelang(run, p)
     run.rules['C17-DATELANG'] = run.rules.pop('C01-DATELANG') + ' (the command line always goes through a .tdda file)'
@@ -130,6 +131,14 @@ def defuse(run, p):
             if isinstance(x, (ast.If, ast.While, ast.IfExp)):
                 for y in ast.walk(x.test):
                     tests.add(id(y))
+                # a comparison with a literal consumes the value (ext == '.parquet'); only presence tests
+                # (truthiness, is None) leave it unused
+                for c in ast.walk(x.test):
+                    if isinstance(c, ast.Compare) and any(
+                            _lit(o) for o in [c.left] + list(c.comparators)) and \
+                            not all(isinstance(o, (ast.Is, ast.IsNot)) for o in c.ops):
+                        for y in ast.walk(c):
+                            tests.discard(id(y))
         for s in p.own_nodes(f):
             if isinstance(s, ast.Assign) and len(s.targets) == 1 and isinstance(s.targets[0], ast.Name) and isinstance(s.value, ast.Call):
                 nm = s.targets[0].id
@@ -186,3 +195,44 @@ def nowrite(run, p):
                '%s performs %s' % (f.short, 'no write of its own' if not own else '; '.join(e.describe()[:80] for e in own)), fn=f,
                node=own[0].node if own else None)
     run.floor('C17-NOWRITE', 3, 3)
+
+
+# output side: the format is chosen by save_df, which raises 'Unknown output format' for every spelling it does
+# not list - for the command line and the library alike - so nothing is ever written in the wrong format
+EXT_OUTPUT_SIDE = {
+    "tdda/constraints/pd/constraints.py::save_df::fmt == 'parquet'": 'save_df raises for unlisted spellings',
+    "tdda/constraints/pd/constraints.py::save_df::fmt in ('csv', 'psv', 'tsv', 'txt')": 'save_df raises for unlisted spellings',
+    "tdda/constraints/pd/constraints.py::PandasConstraintDetector.write_detected_records::file_format(detect_outpath) == 'parquet'":
+        'only chooses typed output for a file save_df will then write as parquet; other spellings make save_df raise',
+}
+
+
+def extcase(run, p):
+    from .common import extcase_rule
+    fs = [f for f in p.funcs.values() if f.rel.startswith(('tdda/constraints/', 'tdda/serial/'))]
+    n = extcase_rule(run, 'C17-EXTCASE', p, fs,
+                     'the command line and the library recognise the same files: every test of an input file\'s extension against '
+                     '.csv/.parquet/.json/.yaml literals (front-end applicability, load_df, load_metadata) is made on the '
+                     'lower-cased extension, so the front end never refuses or misreads a file the loader accepts',
+                     triage_tbl=EXT_OUTPUT_SIDE)
+    run.floor('C17-EXTCASE', n, 6)
+    # the triage above rests on save_df refusing every spelling it does not list
+    sd = p.fn('save_df')
+    ok = False
+    for x in p.own_nodes(sd):
+        if isinstance(x, ast.If) and 'fmt' in names_in(x.test):
+            y = x
+            while len(y.orelse) == 1 and isinstance(y.orelse[0], ast.If):
+                y = y.orelse[0]
+            if y.orelse and any(isinstance(s, ast.Raise) for s in y.orelse):
+                ok = True
+    run.ob('C17-EXTCASE', '%s::save_df::unlisted-format-raises' % sd.rel, ok,
+           'save_df ends its format dispatch with an else arm that raises' if ok else
+           'save_df no longer raises for an unlisted format: a differently-cased extension would be written in a default format',
+           fn=sd)
+
+
+def _lit(e):
+    if isinstance(e, ast.Constant) and e.value is not None and not isinstance(e.value, bool):
+        return True
+    return isinstance(e, (ast.Tuple, ast.List, ast.Set)) and e.elts and all(_lit(x) for x in e.elts)
